@@ -280,6 +280,20 @@ func subEnum() mon.Sub {
 				}
 			}
 			inv := invalidations(side, ext, frag)
+			// ... and a verbatim REPEAT of a frame the reader has just accepted (same flags, opcode and length), where
+			// the state that frame left behind makes its twin illegal: a second first-fragment, a second final continuation
+			for k := len(shapes) - 1; k >= 0; k-- {
+				if ref.IsControl(shapes[k].Op) {
+					continue
+				}
+				h := ref.Header{Fin: shapes[k].Fin, Op: shapes[k].Op, Length: int64(shapes[k].Len)}
+				probe := h
+				probe.Masked = side == ref.SideServer // (runOne masks the frame as the side requires)
+				if len(ref.BrokenRules(probe, side, ext, frag)) > 0 {
+					inv = append(inv, bad{fmt.Sprintf("repeat-%x-fin%v-len%d", h.Op, h.Fin, h.Length), h, shapes[k].Len})
+				}
+				break
+			}
 			for _, b := range inv {
 				for _, tl := range []bool{false, true} {
 					if !runOne(c, shapes, side, ext, b, tl, 0, false) {
